@@ -11,7 +11,7 @@ RULE = ("ALL strings of length <= 4 (thorough 5) over the 18 syntactically signi
         "delimiter (own encoder of the prefix protocol for text fields) after a name, at column 1, after another loop value and ending exactly at "
         "column 2048 is parsed back by the CIF 2.0 parser (one storing parse, the rest syntax-only) to exactly that string and quoting status; "
         "set_quoted(NOT_QUOTED), the scanner on the bare token and cif_is_reserved_string against the grammar predicate; reserved words in all case "
-        "mixtures; a^n for n = 2036..2052.  non-trivial = analyses that recommend a delimiter")
+        "mixtures; a^n for n = 2036..2052; ab c^n cd for c in LF ' \" ; SP a and n in 127..131072 around the powers 2^7, 2^8, 2^15, 2^16, 2^17 (statistics and delimiter rules).  non-trivial = analyses that recommend a delimiter")
 
 
 def main():
